@@ -41,6 +41,7 @@ With a good distance estimate, use a_star.
 from collections.abc import Callable, Iterable
 from heapq import heappop, heappush
 
+from solvor import _verif
 from solvor.rust import with_rust_backend
 from solvor.types import Result, Status
 from solvor.utils import reconstruct_path
@@ -76,6 +77,8 @@ def dijkstra[S](
 
         iterations += 1
         closed.add(current)
+        if _verif.ENABLED:  # pragma: no cover
+            _verif.emit("settle", solver="dijkstra", node=current, label=cost)
 
         # Nodes beyond the cost limit are neither expanded nor accepted as goal: a goal reached through them may have a
         # cheaper route through a pruned node, so its cost would not be the shortest distance
